@@ -67,6 +67,10 @@ static const struct session SESSIONS[] = {
      {M(1, "{\"id\":1,\"method\":\"fetch\",\"params\":{\"id\":\"f\"}}"), M(0, "{\"id\":1,\"method\":\"add\",\"params\":{\"path\":\"sw\",\"value\":1}}"), M(0, "{\"method\":\"change\",\"params\":{\"path\":\"sw\",\"value\":2}}"), FINC(0), M(1, "{\"id\":2,\"method\":\"get\",\"params\":{}}"), END}},
     {"timeout", 2, 0,
      {M(0, "{\"id\":1,\"method\":\"add\",\"params\":{\"path\":\"slow\"}}"), M(1, "{\"id\":1,\"method\":\"call\",\"params\":{\"path\":\"slow\",\"timeout\":0.5}}"), CLK(500000000L), M(1, "{\"id\":2,\"method\":\"info\"}"), {ST_MSG, 0, "@reply-result", 0}, M(0, "{\"id\":2,\"method\":\"info\"}"), END}},
+    {"caller-leaves-then-deadline", 3, 2,
+     {M(0, "{\"id\":1,\"method\":\"add\",\"params\":{\"path\":\"slow2\"}}"), M(2, "{\"id\":1,\"method\":\"fetch\",\"params\":{\"id\":\"f\"}}"), M(1, "{\"id\":1,\"method\":\"call\",\"params\":{\"path\":\"slow2\",\"timeout\":0.5}}"), FINC(1), CLK(500000000L), M(2, "{\"id\":2,\"method\":\"info\"}"), M(0, "{\"id\":2,\"method\":\"info\"}"), END}},
+    {"owner-leaves-then-deadline-ws", 3, 1,
+     {M(0, "{\"id\":1,\"method\":\"add\",\"params\":{\"path\":\"slow3\"}}"), M(1, "{\"id\":1,\"method\":\"call\",\"params\":{\"path\":\"slow3\",\"timeout\":0.5}}"), M(2, "{\"id\":1,\"method\":\"call\",\"params\":{\"path\":\"slow3\",\"timeout\":0.5}}"), FINC(0), CLK(500000000L), M(1, "{\"id\":2,\"method\":\"info\"}"), M(2, "{\"id\":2,\"method\":\"info\"}"), END}},
     {"ws-ping-between", 1, 1,
      {M(0, "{\"id\":1,\"method\":\"add\",\"params\":{\"path\":\"w\",\"value\":1}}"), {ST_BYTES, 0, "\x89\x83\x12\x34\x56\x78\x73\x5d\x31", 9}, M(0, "{\"id\":2,\"method\":\"get\",\"params\":{}}"), {ST_BYTES, 0, "\x8a\x80\x12\x34\x56\x78", 6}, M(0, "{\"id\":3,\"method\":\"info\"}"), END}},
 };
@@ -205,6 +209,21 @@ static int reduced_pos(int ml, int k)
 	return (pos >= 1 && pos < ml) ? pos : 0;
 }
 
+static int ride_first_fd;
+static int ride_first_hook(struct sim_ready *list, int n, int maxevents)
+{
+	(void)maxevents;
+	for (int i = 1; i < n; i++) {
+		if (list[i].fd == ride_first_fd) {
+			struct sim_ready v = list[i];
+			memmove(&list[1], &list[0], sizeof(list[0]) * (size_t)i);
+			list[0] = v;
+			break;
+		}
+	}
+	return n;
+}
+
 static void run_sessions(void)
 {
 	build_big_sessions();
@@ -216,9 +235,9 @@ static void run_sessions(void)
 	const struct session *s = session_at(si);
 	int nsteps = count_steps(s);
 	int pairs = (int)xp_param("pairs", 0);
-	static const int KINDS[] = {0, 1, 2, 3, 4, 6, 5};
-	int kind = KINDS[xp_choose(pairs ? 7 : 6, XP_SCENARIO, "schedule-kind")]; /* 0 baseline(identity), 1 single split, 2 single bytes, 3 coalesce, 4 prefix ride, 5 pair of splits, 6 end of stream in the same batch as the last message */
-	int fin_ride = -1;
+	static const int KINDS[] = {0, 1, 2, 3, 4, 6, 7, 5};
+	int kind = KINDS[xp_choose(pairs ? 8 : 7, XP_SCENARIO, "schedule-kind")]; /* 7: a step and the clock step behind it are harvested in one batch, the connection's event first (same dispatch order as the baseline, different batching) */ /* 0 baseline(identity), 1 single split, 2 single bytes, 3 coalesce, 4 prefix ride, 5 pair of splits, 6 end of stream in the same batch as the last message */
+	int fin_ride = -1, clock_ride = -1;
 	/* schedule parameters are chosen up front so that the twin (baseline) and the primary consume the same choice prefix */
 	int sp_step[2] = {-1, -1}, sp_pos[2] = {0, 0}, sp_mode[2] = {0, 0};
 	int bytes_mode = 0, group_mask = 0, ride_at = -1, ride_len = 0;
@@ -244,6 +263,8 @@ static void run_sessions(void)
 		sp_mode[0] = sp_mode[1] = xp_choose(2, XP_SCENARIO, "split-mode");
 	} else if (kind == 6) {
 		fin_ride = xp_choose(nsteps, XP_SCENARIO, "fin-step");
+	} else if (kind == 7) {
+		clock_ride = xp_choose(nsteps, XP_SCENARIO, "step-before-the-clock");
 	} else if (kind == 2) {
 		bytes_mode = xp_choose(2, XP_SCENARIO, "bytes-mode");
 	} else if (kind == 3) {
@@ -306,6 +327,18 @@ static void run_sessions(void)
 		if (f->kind == ST_FIN) {
 			if (!fin_done[f->conn]) {
 				sim_client_fin(conn[f->conn]);
+			}
+			if (vary && kind == 7 && clock_ride == i && i + 1 < nsteps && s->steps[i + 1].kind == ST_CLOCK) {
+				/* the end of stream and the expiry are harvested together, the connection first */
+				applicable = true;
+				sim_advance((uint64_t)s->steps[i + 1].arg);
+				ride_first_fd = sim_conn_fd(conn[f->conn]);
+				sim_batch_hook = ride_first_hook;
+				jx_settle();
+				sim_batch_hook = NULL;
+				materialise(s, i + 1, &fs[i + 1]);
+				i++;
+				continue;
 			}
 			jx_settle();
 			continue;
@@ -746,6 +779,6 @@ const struct driver drv_c09 = {
     .name = "c09",
     .property = "C09",
     .run = run,
-    .rule = "section 0: 17 multi-connection sessions (two of them with messages of 258, 339 and the maximal 512 / 504 bytes; raw and websocket, fetch, routed requests, batches, errors, zero and oversize length prefixes, ping/pong, owner leaving, timeout) x delivery schedules {every single split point of every message and of every websocket upgrade request, with and without a would-block in between; all single bytes (queued at once / one readiness event per byte); every coalescing of runs of consecutive messages of one connection; a proper prefix of every length of the next message of another connection riding in the same batch in both dispatch orders; the client's end of stream arriving in the same batch as its last message; (thorough) pairs of split points}, each compared with the one-chunk-per-message baseline run as a twin; section 1: 13 truncated / over-long message shapes x 2 transports x 7 fresh-memory fill bytes x 6 residues of an earlier long message, compared with a reference run; section 2: length prefixes 0, max-1, max, max+1, 2^31, 2^32-1, 65536 x split positions of the prefix; section 3: 18 whole connection lives (raw, unix socket, plain HTTP, websocket; valid, refused, malformed, empty) x {client closes at the end or not} x 4 timings relative to the accept (everything queued before the daemon accepts, also with the end of stream; byte by byte after the accept; first part before and the rest after) compared with 'after the accept, part by part': bytes written to the connection, closed or not, and a witness connection's view; non-trivial = applicable schedules",
+    .rule = "section 0: 19 multi-connection sessions (two of them: a websocket caller / an owner leaves with requests pending and the deadline passes) (two of them with messages of 258, 339 and the maximal 512 / 504 bytes; raw and websocket, fetch, routed requests, batches, errors, zero and oversize length prefixes, ping/pong, owner leaving, timeout) x delivery schedules {every single split point of every message and of every websocket upgrade request, with and without a would-block in between; all single bytes (queued at once / one readiness event per byte); every coalescing of runs of consecutive messages of one connection; a proper prefix of every length of the next message of another connection riding in the same batch in both dispatch orders; the client's end of stream arriving in the same batch as its last message; a connection's end of stream harvested in the same batch as the timer expiry that follows it (connection first); (thorough) pairs of split points}, each compared with the one-chunk-per-message baseline run as a twin; section 1: 13 truncated / over-long message shapes x 2 transports x 7 fresh-memory fill bytes x 6 residues of an earlier long message, compared with a reference run; section 2: length prefixes 0, max-1, max, max+1, 2^31, 2^32-1, 65536 x split positions of the prefix; section 3: 18 whole connection lives (raw, unix socket, plain HTTP, websocket; valid, refused, malformed, empty) x {client closes at the end or not} x 4 timings relative to the accept (everything queued before the daemon accepts, also with the end of stream; byte by byte after the accept; first part before and the rest after) compared with 'after the accept, part by part': bytes written to the connection, closed or not, and a witness connection's view; non-trivial = applicable schedules",
     .assumptions = "schedule parameters that do not denote a schedule of the chosen session (split position beyond the message) end the run at once and are not counted|coalescing is only applied to messages that are adjacent in the session, so the completion order of whole messages is preserved",
 };
